@@ -25,7 +25,7 @@ func argvString(t *rapid.T, label string) (string, string) {
 	case "plain":
 		return gen.Text(1, 5).Draw(t, label), cls
 	case "yaml":
-		return rapid.SampledFrom([]string{"- a", "a: b", "# x", "'quoted'", "\"dq\"", "{{.Names}}", "null", "true", "123", "~", "|", ">", "---", "key: [a, b]", "&anchor x", "*alias", "!tag v", "%TAG", "@at", "`bt`", "a #c", ": lead", "- ", "?", "0x1f", "1e3", "no", "docker ps --format 'table {{.Names}}\\t{{.Status}}'", "find . -name '*.go' -exec gofmt -w {} \\;", " leading", "trailing ", "  both  ", "a\\nb", "tab\there"}).Draw(t, label), cls
+		return rapid.SampledFrom([]string{"- a", "a: b", "# x", "'quoted'", "\"dq\"", "{{.Names}}", "null", "true", "123", "~", "|", ">", "---", "key: [a, b]", "&anchor x", "*alias", "!tag v", "%TAG", "@at", "`bt`", "a #c", ": lead", "- ", "?", "0x1f", "1e3", "no", "100% cpu", "%s %d%%", "50%", "docker ps --format 'table {{.Names}}\\t{{.Status}}'", "find . -name '*.go' -exec gofmt -w {} \\;", " leading", "trailing ", "  both  ", "a\\nb", "tab\there"}).Draw(t, label), cls
 	case "multiline":
 		return rapid.SampledFrom([]string{"\nfoo", "a\nb", " a\nb", "\n\na", "\n", "\n\n", "a\n", "a\n\n", "  indented\n    more\n", "line1\r\nline2", "a\n b\n  c", "\n- x\n- y", "key: |\n  text", "x\n\n\ny", "\ttab\nnext", "a\n#b"}).Draw(t, label), cls
 	case "control":
@@ -62,6 +62,7 @@ type savedEntry struct {
 	Keywords, Platform, Tags    []string
 	Pipeline                    bool
 	AutoDesc                    bool     // save-pipeline without --description
+	AutoName                    string   // ... in which case the given name is what the description is made from
 	UserKeywords                []string // save-pipeline: suffix of stored keywords
 }
 
@@ -87,6 +88,9 @@ func matchSaved(got database.Command, want savedEntry) string {
 	if want.AutoDesc {
 		if got.Description == "" {
 			return "pipeline saved without --description has an empty description"
+		}
+		if !strings.Contains(got.Description, want.AutoName) {
+			return fmt.Sprintf("pipeline saved under the name %+q without --description: the stored description %+q does not contain the name", want.AutoName, got.Description)
 		}
 	} else if got.Description != want.Description {
 		return fmt.Sprintf("description %+q, saved %+q", got.Description, want.Description)
@@ -150,7 +154,7 @@ var c08Main = []database.Command{
 func TestC08_Save(t *testing.T) {
 	needWtf(t)
 	rec := stat.For("C08")
-	rec.Rule("histories of 1-6 `wtf save` / `wtf save-pipeline` runs of the built binary in an isolated HOME, starting from a missing, empty or populated notebook; command/description/category strings from an argv pool (YAML-significant text, multi-line text with leading/trailing blank lines and indentation, control characters, invalid UTF-8, empty strings, Unicode), repeated command strings (replace path), command strings copied from a main-database entry (the user's own version of a built-in command); flags first, then --, then the positionals. Oracle: after every reported success the notebook reloaded with the real loader equals an in-memory model list field by field (replace-by-command-string, original positions kept); exit status 0/1 and no panic on every run; LoadDatabaseWithPersonal = main entries then notebook entries; a saved entry is found by `wtf search` for one of its words. Non-trivial = >=2 saves with a hostile string class or a replace.")
+	rec.Rule("histories of 1-6 `wtf save` / `wtf save-pipeline` runs of the built binary in an isolated HOME, starting from a missing, empty or populated notebook; command/description/category strings from an argv pool (YAML-significant text, multi-line text with leading/trailing blank lines and indentation, control characters, invalid UTF-8, empty strings, Unicode), repeated command strings (replace path), command strings copied from a main-database entry (the user's own version of a built-in command); flags first, then --, then the positionals. Oracle: after every reported success the notebook reloaded with the real loader equals an in-memory model list field by field (a pipeline saved without a description carries one that contains the given name) (replace-by-command-string, original positions kept); exit status 0/1 and no panic on every run; LoadDatabaseWithPersonal = main entries then notebook entries; a saved entry is found by `wtf search` for one of its words. Non-trivial = >=2 saves with a hostile string class or a replace.")
 	rec.RequireShare("multiline", 0.15)
 	rec.RequireShare("replace", 0.15)
 	rapid.Check(t, func(t *rapid.T) {
@@ -262,7 +266,7 @@ func TestC08_Save(t *testing.T) {
 				name, _ := argvString(t, "name")
 				want = savedEntry{Command: cmdStr, Description: desc, Niche: niche, Platform: plats, Pipeline: true, UserKeywords: kws}
 				if desc == "" || rapid.IntRange(0, 3).Draw(t, "auto-desc") == 0 {
-					want.AutoDesc = true
+					want.AutoDesc, want.AutoName = true, name
 				} else {
 					args = append(args, "--description="+desc)
 				}
